@@ -1,37 +1,129 @@
 //go:build verif
 
 // Export shim for the C08 correspondence harness (injected with `go build -overlay`, never part of /repo):
-// a rateLimiter that is leader of its single shard and owns the given limit store, so that the real
-// DoAcquire can be driven without an API server or leader election.
+// a real rateLimiter that is leader of its single shard and owns the given limit store, so that the real DoAcquire,
+// Heartbeat, cleanupTimeoutClient and cleanupUnknownCondition can be driven without an API server, leader election
+// or timers. Which clients are past the heartbeat time-out is scripted by re-dating the entries of the real cache.
 package limiter
 
 import (
 	"context"
+	"fmt"
+	"runtime"
+	"strings"
 	"sync"
+	"time"
+
+	"k8s.io/client-go/tools/cache"
 
 	proxyv1alpha1 "github.com/kubewharf/kubegateway/pkg/apis/proxy/v1alpha1"
+	proxylisters "github.com/kubewharf/kubegateway/pkg/client/listers/proxy/v1alpha1"
 	"github.com/kubewharf/kubegateway/pkg/ratelimiter/limiter/elector"
 	_interface "github.com/kubewharf/kubegateway/pkg/ratelimiter/store/interface"
 )
 
 type verifC08Elector struct{ leader bool }
 
-func (verifC08Elector) Run(ctx context.Context)                 {}
-func (e verifC08Elector) IsLeader(shardId int) bool             { return e.leader }
-func (verifC08Elector) SetCallbacks(elector.LeaderCallbacks)    {}
+func (verifC08Elector) Run(ctx context.Context)              {}
+func (e verifC08Elector) IsLeader(shardId int) bool          { return e.leader }
+func (verifC08Elector) SetCallbacks(elector.LeaderCallbacks) {}
 func (verifC08Elector) GetLeaders() map[int]proxyv1alpha1.EndpointInfo {
 	return map[int]proxyv1alpha1.EndpointInfo{0: {Leader: "other"}}
 }
 
+type verifC08Controller struct {
+	lister proxylisters.UpstreamClusterLister
+}
+
+func (c *verifC08Controller) Run(stopCh <-chan struct{})                                {}
+func (c *verifC08Controller) UpstreamClusterLister() proxylisters.UpstreamClusterLister { return c.lister }
+func (c *verifC08Controller) Get(cluster string) (*proxyv1alpha1.UpstreamCluster, bool) {
+	return nil, false
+}
+
+// VerifC08Rig is the limiter server object around a store, with its environment scripted.
+type VerifC08Rig struct {
+	r       *rateLimiter
+	indexer cache.Indexer
+}
+
+// VerifC08NewRig: upstreams are the UpstreamCluster names the lister knows (cleanupUnknownCondition drops the stores
+// of unknown upstreams).
+func VerifC08NewRig(store _interface.LimitStore, leader bool, upstreams ...string) *VerifC08Rig {
+	indexer := cache.NewIndexer(cache.MetaNamespaceKeyFunc, cache.Indexers{})
+	for _, u := range upstreams {
+		uc := &proxyv1alpha1.UpstreamCluster{}
+		uc.Name = u
+		indexer.Add(uc)
+	}
+	r := &rateLimiter{
+		runId:              "verif",
+		identity:           "verif",
+		shardCount:         1,
+		leaderElector:      verifC08Elector{leader: leader},
+		clientCache:        NewClientCache(),
+		limitStoreMap:      map[int]_interface.LimitStore{0: store},
+		upstreamLock:       map[string]*sync.Mutex{},
+		upstreamController: &verifC08Controller{lister: proxylisters.NewUpstreamClusterLister(indexer)},
+	}
+	return &VerifC08Rig{r: r, indexer: indexer}
+}
+
 // VerifC08RateLimiter builds the limiter server object around a store.
 func VerifC08RateLimiter(store _interface.LimitStore, leader bool) RateLimiter {
-	return &rateLimiter{
-		runId:         "verif",
-		identity:      "verif",
-		shardCount:    1,
-		leaderElector: verifC08Elector{leader: leader},
-		clientCache:   NewClientCache(),
-		limitStoreMap: map[int]_interface.LimitStore{0: store},
-		upstreamLock:  map[string]*sync.Mutex{},
+	return VerifC08NewRig(store, leader).r
+}
+
+func (g *VerifC08Rig) Limiter() RateLimiter { return g.r }
+
+// Clients reads the real heartbeat table.
+func (g *VerifC08Rig) Clients() []string {
+	clients, _ := g.r.clientCache.AllClients()
+	res := []string{}
+	for c := range clients {
+		res = append(res, c)
+	}
+	return res
+}
+
+func verifC08PassRunning() bool {
+	buf := make([]byte, 1<<20)
+	for {
+		n := runtime.Stack(buf, true)
+		if n < len(buf) {
+			return strings.Contains(string(buf[:n]), "cleanupTimeoutClient.func")
+		}
+		buf = make([]byte, 2*len(buf))
 	}
 }
+
+// SweepTimeout runs ONE real cleanupTimeoutClient pass in which exactly the recorded clients named in stale are past
+// ClientHeartBeatTimeout: their entries are re-dated to three time-outs ago, all others to now (margins of seconds on
+// both sides, so the real clock cannot change who is stale). The goroutines the pass starts are awaited.
+func (g *VerifC08Rig) SweepTimeout(stale []string) error {
+	isStale := map[string]bool{}
+	for _, s := range stale {
+		isStale[s] = true
+	}
+	clients, _ := g.r.clientCache.AllClients()
+	now := time.Now()
+	for c := range clients {
+		if isStale[c] {
+			g.r.clientCache.clientHeartbeats.Store(c, now.Add(-3*ClientHeartBeatTimeout))
+		} else {
+			g.r.clientCache.clientHeartbeats.Store(c, now)
+		}
+	}
+	g.r.cleanupTimeoutClient()
+	deadline := time.Now().Add(20 * time.Second)
+	for verifC08PassRunning() {
+		if time.Now().After(deadline) {
+			return fmt.Errorf("goroutines started by cleanupTimeoutClient did not finish")
+		}
+		time.Sleep(20 * time.Microsecond)
+	}
+	return nil
+}
+
+// CleanupUnknown runs ONE real cleanupUnknownCondition pass (synchronous).
+func (g *VerifC08Rig) CleanupUnknown() { g.r.cleanupUnknownCondition() }
